@@ -28,6 +28,12 @@ RULE = (
 ASSUMPTIONS = ["integer-valued data and h = 1 so that finite differences of multilinear terms are exact in floating point"]
 V = list("abcde")
 PYF = ["log(p)", "I(p + 1)", "center(p)"]
+# columns whose names look like numbers (wide-format year columns, `1e3`), hold a space, or spell a float constant
+ODD = ["2019", "1e3", "x y", "inf"]
+
+
+def ftext(x):
+    return f"`{x}`" if x in ODD and x != "inf" else x
 
 
 def gen_case(rng: random.Random, tier: str) -> dict:
@@ -36,6 +42,9 @@ def gen_case(rng: random.Random, tier: str) -> dict:
         fs = rng.sample(V, rng.randint(1, 4))
         if rng.random() < 0.25:  # factors computed by Python code are differentiation variables like any other (by their text)
             fs[rng.randrange(len(fs))] = rng.choice(PYF)
+            fs = list(dict.fromkeys(fs))
+        if rng.random() < 0.25:
+            fs[rng.randrange(len(fs))] = rng.choice(ODD)
             fs = list(dict.fromkeys(fs))
         if frozenset(fs) in seen:
             continue
@@ -46,8 +55,8 @@ def gen_case(rng: random.Random, tier: str) -> dict:
     n = 6
     return {
         "terms": terms, "icpt": rng.random() < 0.6, "ordering": rng.choice(["degree", "none", "sort"]),
-        "wrt": [rng.choice(V + ["q"] + (PYF if any(f in PYF for t in terms for f in t) else [])) for _ in range(rng.randint(1, 3))],
-        "data": {**{v: [float(rng.randint(-4, 4)) for _ in range(n)] for v in V}, "p": [float(rng.randint(1, 5)) for _ in range(n)]},
+        "wrt": [rng.choice(V + ["q"] + (PYF if any(f in PYF for t in terms for f in t) else []) + 2 * [f for t in terms for f in t if f in ODD]) for _ in range(rng.randint(1, 3))],
+        "data": {**{v: [float(rng.randint(-4, 4)) for _ in range(n)] for v in V + ODD}, "p": [float(rng.randint(1, 5)) for _ in range(n)]},
         "entry": rng.choice(["formula", "formula", "spec", "fitted_spec", "structured", "structured_specs"]),
     }
 
@@ -75,7 +84,7 @@ def judge(case) -> Outcome:
     from formulaic import Formula, model_matrix
 
     out = Outcome()
-    f = " + ".join((["1"] if case["icpt"] else ["0"]) + [":".join(t) for t in case["terms"]])
+    f = " + ".join((["1"] if case["icpt"] else ["0"]) + [":".join(ftext(x) for x in t) for t in case["terms"]])
     form = Formula(f, _ordering=case["ordering"])
     wrt = case["wrt"]
     orig_terms = [[x.expr for x in t.factors] for t in form]
@@ -161,7 +170,7 @@ def judge(case) -> Outcome:
         return out
     fd = [c[:, 0] for c in acc]
     def is_lit(x):
-        return x.replace(".", "", 1).isdigit()
+        return x not in case["data"] and x.replace(".", "", 1).isdigit()
 
     nlit = sum(1 for e in exp if all(is_lit(x) for x in e))
     for efr in (False, True):
